@@ -244,7 +244,15 @@ def r1_2(F, R):
     f2s = [f for f in F.fns.values() if strip_generics(f.name) == "texlang::vm::VM::run_impl"]
     if len(f2s) != 1:
         raise AnchorError("VM::run_impl: %d matches" % len(f2s))
-    sibs.append(("VM::run_impl (Command::Font)", f2s[0],
+    font_fn = f2s[0]
+    if not scope_switch(font_fn):
+        # the Font arm may have been extracted into a helper that is only called from run_impl
+        cands = [g for g in F.fns.values() if g.file == font_fn.file and g.id != font_fn.id and scope_switch(g)
+                 and any(("field", "fonts_save_stack") in Flow(g).operand_origins(a) for bi, t in g.calls() for a in t["args"][:1])
+                 and _extracted_from(F, g, {"texlang::vm::VM::run_impl"})]
+        if len(cands) == 1:
+            font_fn = cands[0]
+    sibs.append(("VM::run_impl (Command::Font)", font_fn,
                  lambda ty: ty == "&mut core::option::Option<texlang::types::Font>",
                  lambda o: ("field", "fonts_save_stack") in o))
     # (c) variable::update_save_stack
@@ -260,7 +268,7 @@ def r1_2(F, R):
             raise AnchorError("R1.2: no `match scope` in %s" % fn.name)
         # no normal path may finish without consulting the scope (a "nothing changed" fast path ahead of the
         # dispatch skips the purge of a global assignment); the only sound early-out is "no group is open"
-        if "run_impl" not in fn.name:
+        if not name.startswith("VM::run_impl"):
             flow = Flow(fn)
             empties = set()
             for bi, b in enumerate(fn.blocks):
@@ -565,11 +573,52 @@ def r1_6(F, R):
                         if sf in fp and _field_owner_is(fn, pl, sf, INTERNAL):
                             k += 1
                             nm = strip_generics(fn.name)
+                            ext = None if nm in allowed else _extracted_from(F, fn, set(allowed))
                             if nm in allowed or _is_serde_visitor(fn) or nm.startswith("texlang::vm::serde::"):
                                 R.ok("R1.6", "%s mutates Internal.%s" % (nm, sf), allowed.get(nm, "serde"), fn.loc(st), how="who-may-write")
+                            elif ext:
+                                R.ok("R1.6", "%s mutates Internal.%s" % (nm, sf), "helper only called from %s" % sorted(ext), fn.loc(st), how="who-may-write")
                             else:
                                 R.violation("R1.6", "%s/%s" % (nm, sf), "%s mutates Internal.%s outside the group machinery" % (fn.name, sf), fn.loc(st))
     R.floor("R1.6", "mutable accesses to the Vec save stacks", k, 5)
+
+
+_CALLERS = {}
+
+
+def _callers_of(F, fid):
+    """direct callers (function ids) over the whole-workspace call graph"""
+    if not _CALLERS:
+        from ..pps_run import callgraph
+        cg = callgraph(F, {"texlang.lib", "texlang_stdlib.lib", "texcraft_stdext.lib"})
+        for src, dsts in cg.edges.items():
+            for d in dsts:
+                _CALLERS.setdefault(d, set()).add(src)
+    return _CALLERS.get(fid, set())
+
+
+def _extracted_from(F, fn, allowed_names, depth=2):
+    """`fn` is a helper extracted from an allowed function: it is not public API of another module and every caller is an allowed
+    function (or, one more level, such a helper itself)"""
+    cs = _callers_of(F, fn.id) - {fn.id}
+    if not cs:
+        return None
+    names = set()
+    for c in cs:
+        g = F.fns.get(c)
+        if g is None or g.file != fn.file:
+            return None
+        nm = strip_generics(g.name)
+        if nm in allowed_names:
+            names.add(nm)
+        elif depth > 1:
+            r = _extracted_from(F, g, allowed_names, depth - 1)
+            if r is None:
+                return None
+            names |= r
+        else:
+            return None
+    return names
 
 
 def _impl_name(fn):
